@@ -50,6 +50,14 @@ R = {
    text="TLC checks Bound, Complete and AlteredNeverReleased on Keyshare.tla, a message-level model of the user/keyshare-server exchange over every builder list (D, U, D+nonrev, D+range; two participating keys and one not), both flags, default/other context and every single alteration of the second message's challenge inputs; every emitted case (thorough: a seeded sample) is run through the real KeyshareUserCommitmentRequest / NewKeyshareCommitments / KeyshareUserResponseRequest / KeyshareResponse with real credentials: altered inputs must produce an error and no response, honest runs equal challenges and a joint proof list that verifies under the keyshare labelling.",
    note="Commitment hash injective in the model; lists of <= 2 (3) builders; only 1024-bit keys; legacy protocol generation not exercised; honest nonrev proofs matching known finding D10 are discarded and counted.",
    tech="TLA+ protocol model + TLC exhaustive model checking; generated honest and fault cases replayed on the real protocol functions"),
+ "C08": dict(engine="Decode.tla", design="5/C08, 13",
+   text="Decode.tla describes proof-list documents as trees and every structural mutation of the property's quantifier (delete, null, wrong type, duplicate, empty, truncate, re-key and copy-key to each key class, swap and misplace sub-trees, garbled accumulator) over seven real templates; TLC checks NoPanic, MalformedRejected and refinement of the code's guards and emits every single mutation and all pairs for two templates (thorough: a seeded sample of all pairs); the harness applies each patch list to the JSON of real proof lists and runs decoding and every verification entry point under recover, with matching, short, nil, foreign and revocation-less keys.",
+   note="Structural mutations only: byte-level coverage-guided fuzzing of the decoders (second half of the property's quantifier) is a different technique and is not done; 1024-bit keys.",
+   tech="TLA+ document/mutation model checked with TLC; every generated document replayed on the real decoders and verifiers"),
+ "C16": dict(engine="KeyGen.tla, SafePrimeWorkers.tla", design="5/C16, 13",
+   text="KeyGen.tla transcribes the candidate filter, findMatch and CanProve and is checked by TLC over all candidate streams up to length 4 (6); SafePrimeWorkers.tla models every channel operation of GenerateConcurrent's workers, monitor and consumer and is checked for deadlock, double close, send after abandon and, under fairness, termination without leaked workers; TLC-generated schedules are established on the real goroutines through blocking hooks (with a steered entropy source), hundreds to thousands of toy keys are generated sequentially and concurrently, each key's well-formedness projection computed with math/big and each logged candidate decision validated by KeyGenTrace.tla; the error path runs in child processes.",
+   note="Toy moduli 128..512 bits (thorough: 10 keys at 1024); 2-3 (4) workers in the model; hooks in /repo under build tag verif; schedules that cannot be steered are counted as diverged, not as violations.",
+   tech="TLA+ state machines + TLC (safety, deadlock, liveness under fairness); schedule replay through scheduler-gate hooks; trace validation of recorded decisions"),
  "C10": dict(engine="RevAuth.tla", design="5/C10, 13",
    text="TLC explores every update message an adversary can assemble from a genuine one by up to 2 mutations plus JSON/CBOR transport in RevAuth.tla and checks that the transcribed acceptance predicates imply authenticity; every single-mutation message (thorough: plus a seeded sample of double mutations) is materialised byte for byte and fed to Update.Verify, Witness.Update, EventList.Verify, Update.Prepend and Hash.Equal in memory and after real JSON/CBOR round trips.",
    note="Hash injective and signatures unforgeable in the model; chains of 3 events, 2 chains under one key; toy moduli; the unserialised SignedAccumulator.Accumulator memo is clear on received messages.",
